@@ -24,20 +24,20 @@ TreeOfInit(e) ==
    pdepth |-> e.pd,
    box    |-> [i \in 1 .. n |-> e.cells[i].box]]
 
-\* the representative point of a cell is its centre (C02): order part on ranks, metric part
-\* on the relative position logged in 2^-20 units (-2 marks a zero-width cell)
+\* the representative point of a cell is its centre (C02): order part on ranks; metric part on
+\* cdev = |cpt - (lo+hi)/2| measured exactly by the recorder in half-ulps of the larger bound, so
+\* cdev <= 1 says "cpt is the midpoint up to the rounding of one float addition" (0 on lattices)
 CentreOK(c) ==
   \A x \in DOMAIN c.box :
      /\ c.box[x][1] <= c.cpt[x] /\ c.cpt[x] <= c.box[x][2] /\ c.box[x][1] >= 1
-     /\ c.relc[x] = -2 \/ (c.relc[x] >= Half - 1 /\ c.relc[x] <= Half + 1)
+     /\ c.cdev[x] <= 1
 
-\* equal-size kinds: side lengths of the children (relative to the parent, 2^-20 units)
+\* equal-size kinds: wdev = |width - parent's width / arity| in ulps of the parent's larger bound
+\* (midpoint split: one rounding; linspace: a few roundings)
 WidthsOK(P, pb, c) ==
-  CASE P.kind = "dbin" -> \A x \in DOMAIN pb : c.relw[x] = -2 \/ (c.relw[x] >= Half - 1 /\ c.relw[x] <= Half + 1)
+  CASE P.kind = "dbin" -> \A x \in DOMAIN pb : c.wdev[x] <= 1
     [] P.kind \in {"bin", "kary"} ->
-         \A x \in DOMAIN pb :
-            IF c.box[x] = pb[x] THEN c.relw[x] \in {-2, One}
-            ELSE c.relw[x] = -2 \/ (Arity(P) * c.relw[x] >= One - Arity(P) /\ Arity(P) * c.relw[x] <= One + Arity(P))
+         \A x \in DOMAIN pb : c.box[x] = pb[x] \/ c.wdev[x] <= (IF P.kind = "bin" THEN 1 ELSE 6)
     [] OTHER -> TRUE
 
 InitCheck(P, e) ==
@@ -50,6 +50,14 @@ InitCheck(P, e) ==
   ELSE IF ~(\A i \in 1 .. T.n : CentreOK(e.cells[i])) THEN "init.centre"
   ELSE IF ~(\A i \in 2 .. T.n : WidthsOK(P, T.box[T.parent[i]], e.cells[i])) THEN "init.widths"
   ELSE "ok"
+
+\* the observed child boxes are ChildBoxes of a cut vector the class may draw
+CutsOf(P, kb, dim) ==
+  IF P.kind = "dbin" THEN [x \in 1 .. P.D |-> kb[1][x][2]]
+  ELSE [j \in 1 .. Arity(P) + 1 |-> IF j = 1 THEN kb[1][dim][1] ELSE kb[j - 1][dim][2]]
+CutsExplain(P, pb, kb) ==
+  \E dim \in 1 .. P.D :
+     LET cuts == CutsOf(P, kb, dim) IN CutsOK(P, pb, dim, cuts) /\ kb = ChildBoxes(P, pb, dim, cuts)
 
 \* Is the observed make_children event e explained by MkB on tree T ?
 MkCheck(P, T, e) ==
@@ -71,6 +79,9 @@ MkCheck(P, T, e) ==
   ELSE IF ~Tiling(P, T.box[p], [j \in 1 .. K |-> e.new[j].box]) THEN "mk.tiling"      \* C02
   ELSE IF ~(\A j \in 1 .. K : CentreOK(e.new[j])) THEN "mk.centre"                      \* C02
   ELSE IF ~(\A j \in 1 .. K : WidthsOK(P, T.box[p], e.new[j])) THEN "mk.widths"         \* C02
+  ELSE IF ~CutsExplain(P, T.box[p], [j \in 1 .. K |-> e.new[j].box]) THEN "mk.cuts"     \* C02: the class's split law
+  ELSE IF Has(e, "want") /\ (e.wantp # p \/ [j \in 1 .. K |-> e.new[j].box] # ChildBoxes(P, T.box[p], e.want[1], e.want[2]))
+       THEN "mk.replay-mismatch"                                   \* spec -> code: the behaviour TLC produced
   ELSE "ok"
 
 MkApply(P, T, e) == MkB(P, T, e.p, [j \in 1 .. Arity(P) |-> e.new[j].box])
